@@ -112,6 +112,7 @@ class HistFit(FitBase):
         self._data_container._on_error_change_callback = self._on_error_change
 
         self._nexus.get("data").mark_for_update()
+        self._nexus.get("model").mark_for_update()  # bin edges / number of entries may have changed
         check_numerical_range(self.data, "data")
 
     def _set_new_parametric_model(self):
